@@ -48,6 +48,7 @@ def judge(ctx, rng, curve, contents, how, sim_gas):
     kinds = '+'.join(sorted({c['kind'] for c in contents}))
     ctx.case((curve, how, repr(contents), node.counter), nontrivial=len(contents) > 1 or curve == b'BL')
     ctx.count('groups')
+    ctx.count('how_' + how.split('>')[0].split('-')[0])
     ctx.count('how_' + how)
     ctx.count('curve_' + CNAME[curve])
     ctx.count('batch_%d' % min(len(contents), 10))
@@ -56,7 +57,14 @@ def judge(ctx, rng, curve, contents, how, sim_gas):
         cx = ExecutionContext(key=key, shell=ShellQuery(RpcNode('http://node.test')))
         og = OperationGroup(context=cx, contents=[dict(c) for c in contents])
         try:
-            filled = og.fill() if how == 'fill' else og.autofill()
+            if how.startswith('bulk-'):
+                # a group that went through autofill / fill before is batched again with client.bulk and prepared anew
+                from pytezos.client import PyTezosClient
+                pre = og.autofill() if 'after-autofill' in how else og.fill()
+                batch = PyTezosClient(context=cx).bulk(pre)
+                filled = batch.fill() if how.endswith('>fill') else batch.autofill()
+            else:
+                filled = og.fill() if how == 'fill' else og.autofill()
             signed = filled.sign()
             payload = signed.binary_payload()
         except Exception as e:
@@ -99,7 +107,7 @@ def run(ctx):
                 c['delegate'] = ''          # client.delegation() without an argument: self registration, filled in by the client
                 ctx.count('self_registration_delegations')
         gas_pool = rng.choice([[0], [1, 100], [1000, 5000], [10000, 100000], [1040000 // max(k, 1)], [3, 1040000 // max(k, 1)]])
-        how = rng.choice(['fill', 'autofill'])
+        how = rng.choice(['fill', 'autofill', 'fill', 'autofill', 'bulk-after-autofill>fill', 'bulk-after-autofill>autofill', 'bulk-after-fill>fill', 'bulk-after-fill>autofill'])
         judge(ctx, rng, curve, contents, how, lambda c: rng.choice(gas_pool))
     # large batches with gas consumptions that are not round numbers: per-content rounding losses add up with the batch size
     for j in range(ctx.pick(24, 400) // ctx.nshards + 1):
